@@ -191,9 +191,14 @@ def ex_e2e_poisson(ctx, total, n_obs, scale=None, seed=0, rescale_history=None):
     fore, cat = _small_setup(total, n_obs, rng, scale)
     if rescale_history:
         # history on one forecast object: the total is read (event_count / an N-test), then the same object is re-scaled
-        for f_ in rescale_history:
+        for i_, f_ in enumerate(rescale_history):
             ctx.call(pe.number_test, fore, cat)
             ctx.call(lambda: fore.event_count)
+            if isinstance(f_, str):
+                # scale() is documented for "int, float, or ndarray": per-cell, per-magnitude-bin and full-table factors
+                ra = numpy.random.default_rng([seed, 77, i_])
+                shp = {"percell": (fore._data.shape[0], 1), "permag": (fore._data.shape[1],), "full": fore._data.shape}[f_]
+                f_ = ra.uniform(0.2, 3.0, shp)
             fore.scale(f_)
     case = {"exec": "e2e_poisson", "args": {"total": total, "n_obs": n_obs, "scale": scale, "seed": seed, "rescale_history": rescale_history}}
     ok, res, tb = ctx.call(pe.number_test, fore, cat)
@@ -203,7 +208,8 @@ def ex_e2e_poisson(ctx, total, n_obs, scale=None, seed=0, rescale_history=None):
         return
     mu = float(math.fsum((fore._data * fore._scale).ravel().tolist()))
     ge, le, pmf = pois_tails(mu, n_obs)
-    tags = {"law": "poisson", "e2e": True, "scaled": scale is not None, "n_zero": n_obs == 0, "rescale_history": bool(rescale_history), "n_obs_large": n_obs > 16384}
+    tags = {"law": "poisson", "e2e": True, "scaled": scale is not None, "n_zero": n_obs == 0, "rescale_history": bool(rescale_history), "n_obs_large": n_obs > 16384,
+            "array_factor": bool(rescale_history) and any(isinstance(f_, str) for f_ in rescale_history)}
     if res.observed_statistic != n_obs:
         ctx.violate("n_obs is not the catalog's event count", case, observed=res.observed_statistic, expected=n_obs, tags=tags)
     tol = TOL + 1e-9 * max(1.0, pmf * mu)      # d/dmu of the tails is bounded by pmf; total is a float sum
@@ -351,7 +357,8 @@ def run(ctx):
         n_obs = int(r.choice([0, 1, 2, max(0, int(total)), int(total) + 1, int(r.integers(0, 60)), int(total * 2)]))
         n_obs = min(n_obs, 4000)
         scale = None if j % 3 else float(r.choice([0.5, 2.0, 0.1, 7.0]))
-        ex_e2e_poisson(ctx, total, n_obs, scale, seed=j, rescale_history=None if j % 4 else [float(r.choice([2.0, 0.5, 3.0])), float(r.choice([0.25, 1.0, 5.0]))])
+        ex_e2e_poisson(ctx, total, n_obs, scale, seed=j, rescale_history=None if j % 4 else ([float(r.choice([2.0, 0.5, 3.0])), float(r.choice([0.25, 1.0, 5.0]))] if j % 8 else
+                                                            [float(r.choice([2.0, 0.5])), str(r.choice(["percell", "permag", "full"]))]))
         ex_e2e_nbd(ctx, total, n_obs, total * (1 + 10 ** r.uniform(-2, 2)), seed=j)
         ctx.count(2)
         ctx.nt(digest(("e2e", j, ctx.seed, total, n_obs)))
